@@ -1026,8 +1026,11 @@ class Engine:
     if not is_sym(a) and not is_sym(b):
       if isinstance(a, (SymSeq, Closure, SymCallable)) or isinstance(b, (SymSeq, Closure, SymCallable)):
         raise Unsupported('comparison of abstract objects')
-      return {ast.Eq: lambda: a == b, ast.NotEq: lambda: a != b, ast.Lt: lambda: a < b, ast.LtE: lambda: a <= b,
-              ast.Gt: lambda: a > b, ast.GtE: lambda: a >= b}[type(op)]()
+      try:
+        return {ast.Eq: lambda: a == b, ast.NotEq: lambda: a != b, ast.Lt: lambda: a < b, ast.LtE: lambda: a <= b,
+                ast.Gt: lambda: a > b, ast.GtE: lambda: a >= b}[type(op)]()
+      except TypeError as e:
+        raise Unsupported(f'comparison {type(a).__name__} {type(op).__name__} {type(b).__name__}: {e}')
     if a is None or b is None:
       return isinstance(op, ast.NotEq)
     if (is_sym(a) and z3.is_string(a)) or (is_sym(b) and z3.is_string(b)):
